@@ -1,8 +1,15 @@
 """C11 -- a BGPsec path is VALID only if every hop's signature verifies under its AS's key."""
 from engine import core
 
-INFO = {"outside": "wip", "assumptions": []}
-MANIFEST = {"text": "wip", "note": "wip"}
+INFO = {
+    "outside": 'more than 3 hops; signature lengths other than the per-job constants; OpenSSL itself',
+    "assumptions": ['ECDSA_verify is a function of (digest, signature, key)'],
+}
+MANIFEST = {
+    "text": "Bounded model checking of the real rtr_bgpsec_validate_as_path with OpenSSL stubbed at its API: for 1..3 hops with all field values symbolic the bytes handed to SHA-256 per hop equal an independent RFC 8205 section 4.2 serialiser, every ECDSA verification uses that hop's signature and a key registered for the hop's SKI and AS, VALID <=> every hop verifies, specific codes for wrong counts / suite / AFI, with all memory-safety checks on (hostile signature / NLRI lengths).",
+    "note": 'ECDSA, SHA-256 and DER parsing are environment (contract stubs). Known finding F7 (keys looked up by SKI only) is reported as KNOWN-FINDING and the same jobs must pass with exactly that input class excluded. The two AFI/SAFI copies in the API structs are kept equal.',
+    "technique": 'CBMC on real bgpsec.c/bgpsec_utils.c with OpenSSL API stubs and an RFC 8205 reference serialiser',
+}
 BGPSEC_SOURCES = ["rtrlib/bgpsec/bgpsec.c", "rtrlib/bgpsec/bgpsec_utils.c"]
 BGPSEC_STUBS = ["OpenSSL stubbed at its API: SHA256_* record the hashed bytes and return an injective tag; d2i_EC_PUBKEY/"
                 "d2i_ECPrivateKey/EC_KEY_check_key symbolic outcome; ECDSA_verify answers from a symbolic (hop,key) table and "
